@@ -21,9 +21,24 @@ VERUS = {
     'int_modconv_panic': {'file': 'int_modconv_panic.rs'},
 }
 
+_PB = 'single-word ring, modulus 2^61-1 (pinned by assume); one-word exponent; '
+KANI = {
+    'int_modpow': {
+        'package': 'dashu-int', 'target': 'integer/src/modular/pow.rs', 'file': 'int_modpow.rs',
+        'harnesses': {
+            'vk_modpow_single_word_exp_small': {'kind': 'bounded', 'tier': 'thorough', 'bound': _PB + 'bases +-k, k < 4; exponent < 6'},
+            'vk_modpow_single_word_exp': {'kind': 'bounded', 'tier': 'thorough', 'bound': _PB + 'bases +-k, k < 8; exponent < 16'},
+        },
+    },
+}
+
 PROP_UNITS = {
     'C13': {'verus': ['int_modadd2', 'int_modmul', 'int_moddiv', 'int_modconv', 'int_modconv_panic'],
-            'undecided': ['int_modconv: own trusted mirror of Buffer / TypedRepr / UBig (lib/mod2_conv.rs); "different rings" is '
+            'kani_thorough': ['int_modpow'],
+            'undecided': ['pow: only a bounded Kani stand-in for single-word rings with a one-word exponent (group int_modpow, thorough '
+                          'tier: 160 s / 450 s per harness); two-word exponents run CBMC out of memory, large::pow (windowed) and '
+                          'double-word rings are not covered',
+                          'int_modconv: own trusted mirror of Buffer / TypedRepr / UBig (lib/mod2_conv.rs); "different rings" is '
                           'reference identity, modelled as the uninterpreted relation same_object that core::ptr::eq is ASSUMED to '
                           'decide; the operator impls that call check_same_ring_* / panic_different_rings on mixed '
                           'Single/Double/Large representations (match arms in add.rs, mul.rs, repr.rs) are not under contract; '
